@@ -152,6 +152,14 @@ def worker(args, scratch):
                 root.write(BKP + "/proxy-agent.json", b'{"old": %d}' % r.getrandbits(32))
                 root.write(BKP + "/ebpf_cgroup.o", b"old" + bytes(r.getrandbits(8) for _ in range(50)))
                 root.write(BK + "/azure-proxy-agent.service", b"[Unit]\nDescription=old %d\n" % r.getrandbits(32))
+            # bystanders: other software's files in the shared folders (another Azure component's config in /etc/azure, a unit next to the
+            # agent's unit, a file next to the eBPF object): no command may alter or remove them
+            bystanders = {}
+            if h % 3 != 2:
+                for bp in ("/etc/azure/other-component.conf", "/usr/lib/azure-proxy-agent/README.txt", "/usr/lib/systemd/system/other-thing.service", "/usr/sbin/azure-proxy-agent.old"):
+                    if r.random() < 0.8:
+                        root.write(bp, b"bystander %d\n" % r.getrandbits(64))
+                        bystanders[bp] = sha(root.p(bp))
             canonical = (h % 4 == 0)
             seq = [["backup"], ["install"], r.choice([["restore"], ["restore", "false"], ["restore", "true"]])] if canonical else [r.choice(COMMANDS) for _ in range(r.randrange(1, 11))]
             baseline_upper = set(root.upper_files())
@@ -193,6 +201,13 @@ def worker(args, scratch):
                         res["violations"].append(["%s:files-replaced-before-service-stop" % cmd[0], wit])
                     if start is None or start.split("|")[1] != new_sig or "start" not in verbs or verbs.index("start") < verbs.index("stop") if stop else True:
                         res["violations"].append(["%s:service-not-started-after-last-file" % cmd[0], wit])
+                for bp, bh in bystanders.items():
+                    if sha(root.p(bp)) != bh:
+                        res["violations"].append(["%s:bystander-file-altered-or-removed" % (cmd[0] + ("-" + cmd[1] if len(cmd) > 1 else "")), dict(wit, path=bp, now=sha(root.p(bp)))])
+                        bystanders = {}
+                        break
+                if bystanders:
+                    cnt["bystander_checks"] = cnt.get("bystander_checks", 0) + 1
                 # nothing outside the four locations, the backup folder and the tool's own log
                 for f in set(root.upper_files()) - baseline_upper:
                     if not any(f == a or f.startswith(a + "/") for a in ALLOWED_PREFIXES):
